@@ -113,6 +113,18 @@ func (x *Exec) evalMeasure(fr *Frame, c *Clause, st *State) []Term {
 
 // lvalueGo resolves "x.f" to the heap key prefix of field f and the object holding it.
 func (env *Env) lvalueGo(e *SExpr) (string, Term, bool) {
+	if call, ok := e.Go.(*ast.CallExpr); ok && len(call.Args) == 1 {
+		if id, ok := call.Fun.(*ast.Ident); ok && (id.Name == "owned" || id.Name == "blen") {
+			t, ok := tvTerm(env.expr(call.Args[0]))
+			if !ok || env.err != nil {
+				return "", Term{}, false
+			}
+			if id.Name == "owned" {
+				return kBufOwned, t, true
+			}
+			return kBufLen, t, true
+		}
+	}
 	sel, ok := e.Go.(*ast.SelectorExpr)
 	if !ok {
 		return "", Term{}, false
